@@ -168,8 +168,15 @@ func (w *dnsWorld) c09OnQuery(q *dnsUpQuery) {
 		if ch == q.chain || ch.op == nil || ch.key != q.chain.key || ch.gen != q.chain.gen || ch.op.done {
 			continue
 		}
+		// The other resolution counts as running only while its task is inside a forwarder's
+		// ForwardDNS: a resolution ends by dae's own deadlines (measured from the START of the
+		// coalesced resolution, not from the instant a query was sent), and a new leader can
+		// only appear after the previous leader's closure has returned.
+		if w.curFwd[ch.task] == nil {
+			continue
+		}
 		for _, o := range ch.queries {
-			if !o.reacted && o.open() && now-o.at < 2*time.Second {
+			if !o.reacted && o.open() {
 				w.s.Failf("c09-duplicate-upstream-resolution", "client c%d (op %d) and client c%d (op %d) ask the same question %v concurrently and both are resolving it upstream: query #%d is sent while query #%d (sent %v ago) is still outstanding",
 					q.chain.op.cli, q.chain.op.idx, ch.op.cli, ch.op.idx, ch.key, q.seq, o.seq, now-o.at)
 				return
@@ -294,7 +301,7 @@ func (w *dnsWorld) checkForwardersRetired(when string) {
 
 func (w *dnsWorld) afterOp(op *dnsOp) {
 	if w.track != nil {
-		w.track.touch(op.key, op.start, op.end)
+		w.track.touch(op.key, op.start, op.end, op.useUncertain)
 	}
 	switch w.mode {
 	case dnsModeC08:
